@@ -341,6 +341,46 @@ def closure_param_interval(body, idx, depth, env):
                 if re.search(r'ops::(function::)?Fn(Mut|Once)?::call(_mut|_once)?$', path) or path == body.path:
                     continue
                 return None
+    if direct is None:
+        # a non-capturing closure coerced to a `fn(..)` pointer and called through it in the creating function (after helper
+        # splicing: `shift(date.year(), n)` with shift = |year, n| year + n): the parameters are the call's arguments
+        for i in parent.normal_blocks:
+            t = parent.blocks[i]['term']
+            if t['k'] != 'call' or t.get('callee') or not t.get('fop'):
+                continue
+            c = parent.expr(t['fop'])
+            for _ in range(12):
+                if c[0] in ('ref', 'deref'):
+                    c = c[1]
+                elif c[0] == 'cast':
+                    c = c[3]
+                else:
+                    break
+            if c[0] == 'phi':
+                # the pointer parameter of a helper spliced at several call sites: this closure is one of the values
+                cands = [x for x in c[2]]
+            else:
+                cands = [c]
+            hit = False
+            for x in cands:
+                for _ in range(12):
+                    if x[0] in ('ref', 'deref'):
+                        x = x[1]
+                    elif x[0] == 'cast':
+                        x = x[3]
+                    else:
+                        break
+                if x[0] == 'aggr' and x[1] == 'closure:' + body.path:
+                    hit = True
+            if not hit:
+                continue
+            if idx - 2 >= len(t['args']):
+                return None
+            iv = interval(parent, parent.expr(t['args'][idx - 2]), depth + 1, env)
+            if iv is None:
+                return None
+            direct = iv if n_direct == 0 else union(direct, iv)
+            n_direct += 1
     return direct
 
 
